@@ -13,6 +13,11 @@ class AnchorMissing(AnalysisError):
     pass
 
 
+class PrivateAnchorMissing(AnalysisError):
+    """A private helper the rules know is gone and no renamed / moved successor could be identified (e.g. it was merged
+    into another function).  Rules about it become undecided inside a guard; un-guarded it is an analysis error."""
+
+
 def repo_root():
     return os.environ.get('LENTIL_REPO', '/repo')
 
@@ -374,6 +379,7 @@ class Repo:
         new = [f for f in self.all_functions() if f.key not in known and not f.is_setter
                and f.name.startswith('_') and not f.name.startswith('__')]
         calls = {}
+        pending = []
         for key in missing:
             mod, _, qual = key.partition('.')
             owner = qual.rsplit('.', 1)[0] if '.' in qual else None
@@ -395,7 +401,14 @@ class Repo:
                     hit = hit or f.key in calls[c]
                 if hit or not callers:
                     cands.append(f)
+            resolved_to = getattr(self, '_rename_targets', None)
+            if resolved_to is None:
+                resolved_to = self._rename_targets = {}
             if len(cands) == 1:
+                resolved_to.setdefault(id(cands[0]), []).append(key)
+            pending.append((key, qual, mod, cands))
+        for key, qual, mod, cands in pending:
+            if len(cands) == 1 and len(self._rename_targets[id(cands[0])]) == 1:
                 f = cands[0]
                 self.renamed[key] = f.key
                 if f.module.name != mod:
@@ -421,6 +434,8 @@ class Repo:
         mod, _, qual = key.partition('.')
         m = self.modules.get(mod)
         if m is None or qual not in m.functions:
+            if qual.rsplit('.', 1)[-1].startswith('_') and not qual.rsplit('.', 1)[-1].startswith('__'):
+                raise PrivateAnchorMissing(f'private helper {key} not found in {self.root} (merged or removed?)')
             raise AnchorMissing(f'anchor function {key} not found in {self.root}')
         return m.functions[qual]
 
